@@ -21,35 +21,14 @@ Correspondence of labels to code:
 * `senderGiveUp`    – a sender goroutine takes `case <-ctx.Done()`.
 * `runRet`          – `Run` returned.
 -/
+import KitModel.CoalescingIR
+import KitModel.Generated.C09
 namespace Kit.Coalescing
+open IR
 
-/-! ### float64(int64) for non-negative values -/
-
-/-- `float64(n)` (IEEE-754 binary64, round to nearest, ties to even) of an integer `0 ≤ n`,
-given again as an integer (every binary64 value ≥ 2^52 is an integer). -/
-def f64OfNat (n : Nat) : Nat :=
-  if n < 2 ^ 53 then n
-  else
-    let sh := n.log2 - 52
-    let q := n / 2 ^ sh
-    let r := n % 2 ^ sh
-    let half := 2 ^ (sh - 1)
-    let q' := if half < r ∨ (r = half ∧ q % 2 = 1) then q + 1 else q
-    q' * 2 ^ sh
-
-/-- 2^63: first value that does not fit `int64`/`time.Duration`/`int`. -/
-def int64Lim : Nat := 2 ^ 63
-
-/-! ### configuration and state -/
-
-structure Config where
-  /-- `initialDelay` in ns (> 0 enforced by `NewCoalescing`). -/
-  initial : Nat
-  /-- `maxDelay` in ns (≥ initial enforced by `NewCoalescing`). -/
-  max : Nat
-  /-- `MaxPendingEvents` (`none` = unset; > 0 enforced by `NewCoalescing`). -/
-  cap : Option Nat
-  deriving Repr, DecidableEq, BEq, Hashable
+/-! `f64OfNat`, `int64Lim`, `Config` and the statement language live in `KitModel/CoalescingIR.lean`;
+the guards and assignments below are the terms `harness/cmd/factgen_c09` extracts from the source
+(`Kit.Generated.C09`), run by `IR.Stmt.execList`. -/
 
 /-- What `NewCoalescing` accepts. -/
 def Config.valid (c : Config) : Prop :=
@@ -110,7 +89,17 @@ structure State where
   armedAt : Nat := 0
   deriving Repr, DecidableEq, BEq, Hashable
 
-def init (cfg : Config) : State := { cur := cfg.initial }
+/-- The fields the source blocks read and write, as an `IR.Env`. -/
+def State.env (s : State) : Env := { pending := s.pending, cur := s.cur, factor := s.factor }
+
+/-- Write an `IR.Env` back (the overflow flag is sticky). -/
+def State.withEnv (s : State) (e : Env) : State :=
+  { s with pending := e.pending, cur := e.cur, factor := e.factor, ovf := s.ovf || e.ovf }
+
+/-- `NewCoalescing`'s literal: `currentDur`, `backoffFactor` as in the source; everything else zero. -/
+def init (cfg : Config) : State :=
+  { cur := Generated.C09.initCur.eval cfg { pending := 0, cur := 0, factor := 0 },
+    factor := Generated.C09.initFactor }
 
 inductive Label where
   | runCall | run | add | top | deliver | tokenGiveUp | expire | exitLoop
@@ -120,19 +109,21 @@ inductive Label where
 
 /-! ### the handlers -/
 
-/-- `fireEvent`. -/
-def fire (s : State) : State :=
-  if 0 < s.pending then
-    { s with pending := 0, fires := s.fires + 1, senders := s.senders + 1 }
+/-- `fireEvent`: the source's guard (`Generated.C09.fireGuard`), its field assignments
+(`fireZero`), then `wg.Add(1)` and the sender goroutine. -/
+def fire (cfg : Config) (s : State) : State :=
+  if Generated.C09.fireGuard.eval cfg s.env then
+    { s.withEnv (Stmt.execList cfg Generated.C09.fireZero s.env) with
+      fires := s.fires + 1, senders := s.senders + 1 }
   else s
 
-/-- `c.maxPendingEvents != nil && c.pendingEvents >= *c.maxPendingEvents`. -/
+/-- `c.maxPendingEvents != nil && <Generated.C09.capGuard>`. -/
 def capReached (cfg : Config) (s : State) : Bool :=
   match cfg.cap with
   | none => false
-  | some m => decide (m ≤ s.pending)
+  | some _ => Generated.C09.capGuard.eval cfg s.env
 
-/-- The back-off block of `handleInputCh`:
+/-- The back-off block of `handleInputCh` (`Generated.C09.backoffBlock`), today:
 ```
 if c.currentDur < c.maxDelay {
     c.backoffFactor *= 2
@@ -140,35 +131,37 @@ if c.currentDur < c.maxDelay {
     if c.currentDur > c.maxDelay { c.currentDur = c.maxDelay }
 }
 ```
-`backoffFactor` is a power of two (invariant `factor_pow2`), so `float64(backoffFactor)` and the
-product are exact as long as they stay below 2^63; outside that range (`int` wraps, the
+`backoffFactor` is a power of two (theorem `backoff_no_overflow`), so `float64(backoffFactor)` and
+the product are exact as long as they stay below 2^63; outside that range (`int` wraps, the
 float→int conversion is implementation defined) the model only raises `ovf` (third component).
 Result: (`currentDur`, `backoffFactor`, left the int64 range). -/
 def backoffVals (cfg : Config) (cur factor : Nat) : Nat × Nat × Bool :=
-  if cur < cfg.max then
-    let f := factor * 2
-    let p := f64OfNat cfg.initial * f
-    if f < int64Lim ∧ p < int64Lim then (if cfg.max < p then cfg.max else p, f, false)
-    else (cfg.max, f, true)
-  else (cur, factor, false)
+  let e := Stmt.execList cfg Generated.C09.backoffBlock { pending := 0, cur := cur, factor := factor }
+  (e.cur, e.factor, e.ovf)
 
-/-- `handleInputCh` (the token has been taken, the loop returns to its head afterwards). -/
+/-- `handleInputCh` (the token has been taken, the loop returns to its head afterwards).
+Timer durations are the arguments the source passes (`newTimerArg`, `resetTimerArg`). -/
 def handleInput (cfg : Config) (s : State) : State :=
   let s1 := { s with tokens := s.tokens - 1, loop := .top }
   match s.timer with
   | none =>
-    fire { s1 with timer := some (s.now + cfg.initial), armedAt := s.now, wk := 0 }
+    fire cfg
+      { s1 with timer := some (s.now + Generated.C09.newTimerArg.eval cfg s.env),
+                armedAt := s.now, wk := 0 }
   | some _ =>
-    if capReached cfg s then fire s1
+    if capReached cfg s then fire cfg s1
     else
       let b := backoffVals cfg s.cur s.factor
       { s1 with cur := b.1, factor := b.2.1, ovf := s.ovf || b.2.2,
-                timer := some (s.now + b.1), armedAt := s.now, wk := s.wk + 1 }
+                timer := some (s.now + Generated.C09.resetTimerArg.eval cfg
+                                 { pending := s.pending, cur := b.1, factor := b.2.1 }),
+                armedAt := s.now, wk := s.wk + 1 }
 
-/-- `handleTimerFired` = `fireEvent` + `reset`. -/
+/-- `handleTimerFired` = `fireEvent` + `reset` (`Generated.C09.resetBlock`, timer cleared). -/
 def handleTimer (cfg : Config) (s : State) : State :=
-  let s1 := fire s
-  { s1 with pending := 0, cur := cfg.initial, factor := 1, timer := none, loop := .top, wk := 0 }
+  let s1 := fire cfg s
+  { s1.withEnv (Stmt.execList cfg Generated.C09.resetBlock s1.env) with
+    timer := none, loop := .top, wk := 0 }
 
 /-- The run loop is inside its `for`. -/
 def State.running (s : State) : Bool := decide (s.loop = .top ∨ s.loop = .sel)
@@ -189,7 +182,8 @@ def step (cfg : Config) (s : State) : Label → Option State
     else none
   | .add =>
     if s.closed then some s
-    else some { s with pending := s.pending + 1, tokens := s.tokens + 1, adds := s.adds + 1 }
+    else some { s.withEnv (Stmt.execList cfg Generated.C09.addBlock s.env) with
+                tokens := s.tokens + 1, adds := s.adds + 1 }
   | .top => if s.loop = .top then some { s with loop := .sel } else none
   | .deliver => if s.loop = .sel ∧ 0 < s.tokens then some (handleInput cfg s) else none
   | .tokenGiveUp => if s.closed ∧ 0 < s.tokens then some { s with tokens := s.tokens - 1 } else none
